@@ -96,3 +96,10 @@ let list_arg (s : string) : n list list =
 
 let bool_arg s = (s <> "0")
 
+
+let rec nat_of_int (i : int) : nat = if i <= 0 then O else S (nat_of_int (i - 1))
+let rec int_of_nat = function O -> 0 | S n -> 1 + int_of_nat n
+let chars_of_string (s : string) : n list =
+  List.init (String.length s) (fun i -> byte_tab.(Char.code s.[i]))
+let string_of_chars (l : n list) : string =
+  String.concat "" (List.map (fun x -> String.make 1 (Char.chr (int_of_n x))) l)
